@@ -97,6 +97,7 @@ func Run(cfg hx.Config) error {
 	h.sectionHistOps()
 	h.sectionRhelFull()
 	h.sectionVexGenerated()
+	h.sectionMappingHistory()
 	h.sectionJoinSweep()
 	h.sectionKnown()
 	return nil
